@@ -15,7 +15,7 @@
     Bytes are N.  Cards are 80 bytes. *)
 From Coq Require Import List NArith Arith Lia Bool String Ascii.
 From MOC.Base Require Import RangeSet.
-From MOC.Model Require Import Qty Query Build Repr Serial AsciiCodec.
+From MOC.Model Require Import Qty Query Build Repr Serial ST STSerial AsciiCodec.
 Import ListNotations.
 Open Scope N_scope.
 Open Scope list_scope.
@@ -61,6 +61,42 @@ Definition fits_write (q : qty) (w d : N) (l : list range) : list N :=
   let data := encode_rows (N.to_nat (w / 8)) l in
   primary_hdu ++ ext_header q w d (2 * N.of_nat (List.length l)) ++ data
   ++ repeat 0 (N.to_nat (fits_pad (N.of_nat (List.length data)))).
+
+(** space-time MOC (rangemoc2d_to_fits_ivoa / ranges2d_to_fits_ivoa): no TTYPE1 card; rows of a time
+    range carry the most significant bit (STSerial.encode2) *)
+Definition st_cards (w dt ds : N) : list (list N) :=
+  [kw_record (s2l "MOCVERS ") (s2l "'2.0'"); kw_record (s2l "MOCDIM  ") (s2l "'TIME.SPACE'");
+   kw_record (s2l "ORDERING") (s2l "'RANGE'"); kw_record (s2l "COORDSYS") (s2l "'C'");
+   kw_record (s2l "TIMESYS ") (s2l "'TCB'"); kw_record (s2l "MOCTOOL ") (s2l "'CDS MOC Rust lib'");
+   kw_record (s2l "MOCORD_S") (adec ds); kw_record (s2l "MOCORD_T") (adec dt);
+   kw_record (s2l "TFORM1  ") (tform_of w)].
+
+Definition mand_cards (w nrows : N) : list (list N) :=
+  [pad80 (s2l "XTENSION= 'BINTABLE'"); pad80 (s2l "BITPIX  =                    8");
+   pad80 (s2l "NAXIS   =                    2"); mand_record (s2l "NAXIS1  ") (w / 8);
+   mand_record (s2l "NAXIS2  ") nrows; pad80 (s2l "PCOUNT  =                    0");
+   pad80 (s2l "GCOUNT  =                    1"); pad80 (s2l "TFIELDS =                    1")].
+
+Definition fits_write_st (w dt ds : N) (X : stmoc) : list N :=
+  let rows := encode2 (2 ^ (w - 1)) X in
+  let data := encode_rows (N.to_nat (w / 8)) rows in
+  primary_hdu ++ hdr_block (mand_cards w (2 * N.of_nat (List.length rows)) ++ st_cards w dt ds ++ [pad80 (s2l "END")])
+  ++ data ++ repeat 0 (N.to_nat (fits_pad (N.of_nat (List.length data)))).
+
+(** NUNIQ (hpx_cells_to_fits_ivoa): one buffer per depth, filled in iteration order, written in depth order *)
+Definition nuniq_cards (w d : N) : list (list N) :=
+  [kw_record (s2l "MOCVERS ") (s2l "'2.0'"); kw_record (s2l "MOCDIM  ") (s2l "'SPACE'");
+   kw_record (s2l "ORDERING") (s2l "'NUNIQ'"); kw_record (s2l "COORDSYS") (s2l "'C'");
+   kw_record (s2l "MOCTOOL ") (s2l "'CDS MOC Rust lib'"); kw_record (s2l "MOCORD_S") (adec d);
+   kw_record (s2l "MOCORDER") (adec d); kw_record (s2l "TFORM1  ") (tform_of w);
+   kw_record (s2l "TTYPE1  ") (s2l "'UNIQ'")].
+
+Definition fits_write_nuniq (w d : N) (cells : list cell) : list N :=
+  let nb := N.to_nat (w / 8) in
+  let data := flat_map (fun dd => flat_map (fun c : cell => if fst c =? dd then be_bytes nb (uniq_hpx (fst c) (snd c)) else []) cells)
+                       (anseq 0 (S (N.to_nat d))) in
+  primary_hdu ++ hdr_block (mand_cards w (N.of_nat (List.length cells)) ++ nuniq_cards w d ++ [pad80 (s2l "END")])
+  ++ data ++ repeat 0 (N.to_nat (fits_pad (N.of_nat (List.length data)))).
 
 (** ---------- reader: records ---------- *)
 Inductive ferr := FIo | FUnexpectedKeyword | FValueIndicatorNotFound | FUnexpectedValue | FUintValueNotFound
@@ -346,7 +382,7 @@ Fixpoint read_nuniq (fuel : nat) (w : N) (nb : nat) (n : N) (dmax : N) (data : l
   end.
 
 (** ---------- the reader ---------- *)
-Inductive fdata := DRanges (l : list range) | DCells (l : list cell) | DSt.
+Inductive fdata := DRanges (l : list range) | DCells (l : list cell) | DSt (X : stmoc) | DSt29.
 Inductive fres := FOk (lf : leaf) (w d1 d2 : N) (dt : fdata) | FErr (e : ferr).
 
 Definition fits_read (b : list N) : fres :=
@@ -382,7 +418,13 @@ Definition fits_read (b : list N) : fres :=
               | Datatypes.inr cells => FOk lf w dmax 0 (DCells (fold_right insert_c [] cells))
               end
             | LSRange | LTRange | LFRange => FOk lf w d1 0 (DRanges (read_ranges (List.length data) nb (nelems / 2) data))
-            | LSTRange | LST29 => FOk lf w d1 d2 DSt
+            | LSTRange =>
+              (* RangeMoc2DIterFromFits: elements from the rows; when the file holds fewer rows than declared
+                 the read error makes `next` return None and the element in progress is lost *)
+              let rows := read_ranges (List.length data) nb (nelems / 2) data in
+              let els := decode2 (2 ^ (w - 1)) rows in
+              FOk lf w d1 d2 (DSt (if N.of_nat (List.length rows) <? nelems / 2 then removelast els else els))
+            | LST29 => FOk lf w d1 d2 DSt29
             end
           end
         end
